@@ -13,6 +13,7 @@
 // limitations under the License.
 
 // +build amd64
+// +build !verif
 
 package sleep
 
